@@ -233,6 +233,10 @@ func init() {
 				Extra: map[string]int{"rootmap": 0, "lr": 2, "lc": 2, "maxc": 3, "depth": 2, "nosettype": 1, "rej": 1}},
 			{Name: "rej-nested-map", Kind: "nested", T: 256, Keys: 2, Classes: []string{"t", "h", "A", "M"}, Oracles: []string{"sem", "struct", "oob", "notrace"},
 				Extra: map[string]int{"rootmap": 1, "lr": 2, "lc": 2, "maxc": 3, "depth": 2, "nosettype": 1, "rej": 1}},
+			// rejected requests that carry a container as their value (a detached child offered at an invalid
+			// position): histories continue after the rejection, through the refused value's handle as well
+			{Name: "rej-detach-arr", Kind: "nested", T: 256, Keys: 2, Classes: []string{"t", "h", "A"}, Oracles: []string{"sem", "struct", "oob", "notrace"},
+				Extra: map[string]int{"rootmap": 0, "lr": 2, "lc": 2, "maxc": 3, "depth": 2, "nosettype": 1, "rej": 1, "detach": 1}},
 		}
 		r.ExploreSpecs(ns)
 	}})
